@@ -341,6 +341,17 @@ def pad_text(text, rng, size=None):
     return pad + text if rng.random() < 0.6 else text + ("\n" if not text.endswith("\n") else "") + pad
 
 
+def crlf_cuts(text, rng, n=6):
+    """the text with CR LF line ends, and what an editor holds while such a text is being typed or received in pieces:
+    cut right after a carriage return, right after the line feed, and in the middle of a line; also with lone CRs"""
+    t = text.replace("\n", "\r\n")
+    out = [t, text.replace("\n", "\r")]
+    crs = [i for i, ch in enumerate(t) if ch == "\r"]
+    for i in rng.sample(crs, min(n, len(crs))):
+        out += [t[:i + 1], t[:i + 2], t[:max(0, i - 1)] + "\r"]
+    return out
+
+
 TOKENS = ["vars", "{", "}", "(", ")", "[", "]", "send", "save", "source", "destination", "=", "from", "to", "max",
           "remaining", "kept", "allowing", "unbounded", "overdraft", "up", "*", "-", "+", ",", "@a", "@world", "$x", "$",
           "USD", "EUR/2", "10", "-3", "1/2", "1/0", "50%", "12.5%", '"str"', '"é"', "monetary", "account", "number",
